@@ -1,7 +1,7 @@
 #!/bin/bash
 # usage: runall.sh [tier] [seed]  - runs every claimed check and prints one line each
 TIER=${1:-quick}; SEED=${2:-1}
-cd /verif
+cd "$(dirname "$0")/.."
 for id in $(python3 -c "import json;print(' '.join(c['property_id'] for c in json.load(open('MANIFEST.json'))['checks']))"); do
   s=$(date +%s)
   out=$(./check $id --tier $TIER --seed $SEED 2>&1); rc=$?
